@@ -1,6 +1,7 @@
 package props
 
 import (
+	yaml3 "gopkg.in/yaml.v3"
 	"encoding/json"
 	"fmt"
 	"sort"
@@ -604,6 +605,26 @@ func C12(e *core.Env) {
 		if bad := checkWellFormed(rep, out, graphIDs, map[string]bool{"v0": true, "v1": true}); len(bad) > 0 {
 			replay["failed_predicates"] = bad
 			res.Violate("impl-violates-property", "report not well-formed when the message is written `"+sp+"`: "+bad[0], replay)
+		}
+		// the message the Coq model of the parser assigns (ProfileParser: "Validation error" unless a string is written)
+		var ydoc yaml3.Node
+		if yaml3.Unmarshal([]byte(profile), &ydoc) == nil && len(ydoc.Content) > 0 {
+			if y, ok := yamlSx(ydoc.Content[0]); ok {
+				ans, derr := e.Driver.Eval(sx.L(sx.A("c15"), sx.A("verdict"), sx.L(amfDefaultsSx()...), y, g.Sx()))
+				if derr == nil && ans.IsL && len(ans.List) == 2 && ans.List[0].Atom == "ok" {
+					res.Count("message-spelling-compared-with-model")
+					mv := modelItems(ans)
+					iv, _ := implItems(out)
+					if diff := verdictDiff(mv, iv); diff != "" {
+						replay["no_failing_input_found"] = true
+						replay["broken"] = "correspondence ProfileParser.verdict (messages) vs pkg.Validate"
+						replay["model"], replay["impl"] = itemsText(mv), itemsText(iv)
+						res.Violate("model-mismatch", "the message the model assigns differs from the report's when the message is written `"+sp+"`: "+diff, replay)
+					}
+				} else if derr == nil {
+					res.Count("message-spelling-model-answer=" + ans.Atom)
+				}
+			}
 		}
 	}
 
